@@ -237,7 +237,33 @@ pub fn check(tier: &str, rep: &mut Report) {
 
     // hashed-N constructor
     let table = Mutex::new(BTreeMap::new());
-    let hn = strings_over(&[b'A', b'C', b'g', b't', b'N', b'n', b'.'], if quick { 6 } else { 7 });
+    let mut hn = strings_over(&[b'A', b'C', b'g', b't', b'N', b'n', b'.'], if quick { 6 } else { 7 });
+    // long inputs (several 32-byte chunks): one non-ACGT byte at EVERY position, and every pair of positions,
+    // over an ACGT background - the substitute must depend on (read name, position in the READ) and every
+    // genuine base must stay untouched wherever the chunk boundaries fall
+    for len in [31usize, 32, 33, 63, 64, 65, 70, 100, 129] {
+        let bg: Vec<u8> = (0..len).map(|i| b"ACGTTGCAacgt"[(i * 7 + len) % 12]).collect();
+        for pos in 0..len {
+            for sub in [b'N', b'n', b'.', 0x80u8] {
+                let mut x = bg.clone();
+                x[pos] = sub;
+                hn.push(x);
+            }
+        }
+        if len <= 70 {
+            for p1 in 0..len {
+                for p2 in p1 + 1..len {
+                    if quick && (p1 + p2) % 3 != 0 {
+                        continue;
+                    }
+                    let mut x = bg.clone();
+                    x[p1] = b'N';
+                    x[p2] = b'-';
+                    hn.push(x);
+                }
+            }
+        }
+    }
     let names: [&[u8]; 3] = [b"read/1", b"read/2", b""];
     let hf: Vec<(usize, usize, (String, Option<Vec<u8>>))> = hn.par_iter().enumerate().flat_map_iter(|(i, b)| names.iter().enumerate().filter_map(|(j, nm)| hashn_case(b, nm, &table).map(|m| (i, j, m))).collect::<Vec<_>>()).collect();
     for (i, j, (m, other)) in hf.iter().take(5) {
